@@ -58,12 +58,10 @@ var errNodeAborted = errors.New("node aborted")
 func (n *UDFNode) stopUDF() {
 	n.mu.Lock()
 	defer n.mu.Unlock()
-	if !n.stopped {
-		n.stopped = true
-		if n.udf != nil {
-			n.udf.Abort(errNodeAborted)
-		}
-	}
+	// Do not abort the UDF here. The node is asked to stop before it has read the data
+	// that is still on its input edge; it finishes by itself once that has gone through
+	// the UDF and the UDF has been closed. An unresponsive UDF is aborted by its keepalive.
+	n.stopped = true
 }
 
 func (n *UDFNode) runUDF(snapshot []byte) (err error) {
